@@ -103,10 +103,20 @@ func ClassOf(p Program) *ClassSpec {
 		}
 	}
 	walk(p.Validations[0].F, false, false)
-	if len(found) != 1 || found[0].Path == nil {
+	if len(found) == 0 || found[0].Path == nil {
 		return nil
 	}
-	return &found[0]
+	// several occurrences of one and the same atom (e.g. `if c then A else not A`) share a class
+	spec := found[0]
+	for _, f := range found[1:] {
+		if f.Path == nil || f.Kind != spec.Kind || PathString(f.Path) != PathString(spec.Path) || (f.Other == nil) != (spec.Other == nil) || (f.Other != nil && PathString(f.Other) != PathString(spec.Other)) {
+			return nil
+		}
+		if f.Polarity == "neg" {
+			spec.Polarity = "neg"
+		}
+	}
+	return &spec
 }
 
 var vClasses = []string{"0", "1", "2+"}
@@ -660,4 +670,79 @@ func RealResultsWithMessages(report string) ([]string, bool, error) {
 	}
 	sort.Strings(out)
 	return append([]string{fmt.Sprintf("conforms=%v", conforms)}, dedupe(out)...), conforms, nil
+}
+
+// EvalConcrete runs the module on a concrete normalised input (plain Rego interpretation) and
+// returns sorted "level|validation|focusNode" triples.
+func EvalConcrete(code, normalized string) (out []string, err error) {
+	defer func() {
+		if r := recover(); r != nil {
+			if u, ok := r.(Unsupported); ok {
+				err = fmt.Errorf("unsupported: %s", u.Msg)
+				return
+			}
+			panic(r)
+		}
+	}()
+	_, mod, cerr := CompileModule(code)
+	if cerr != nil {
+		return nil, cerr
+	}
+	var in any
+	dec := json.NewDecoder(strings.NewReader(normalized))
+	dec.UseNumber()
+	if derr := dec.Decode(&in); derr != nil {
+		return nil, derr
+	}
+	v, verr := ast.InterfaceToValue(in)
+	if verr != nil {
+		return nil, verr
+	}
+	ev := NewEvaluator(mod, v)
+	for _, level := range []string{"violation", "warning", "info"} {
+		for _, a := range ev.ruleValue(level) {
+			if !a.G.IsTrue() {
+				return nil, fmt.Errorf("guarded value in concrete mode")
+			}
+			var elems []Alt
+			if el, ok := elemsOfSet(a.V); ok {
+				elems = el
+			} else if el, ok := elemsOfArray(a.V); ok {
+				elems = el
+			}
+			for _, e := range elems {
+				if !e.G.IsTrue() {
+					return nil, fmt.Errorf("guarded member in concrete mode")
+				}
+				name, _ := getField(e.V, "sourceShapeName")
+				focus, _ := getField(e.V, "focusNode")
+				out = append(out, fmt.Sprintf("%s|%s|%s", level, strings.Trim(describe(name), "\""), strings.Trim(describe(focus), "\"")))
+			}
+		}
+	}
+	sort.Strings(out)
+	return dedupe(out), nil
+}
+
+// RealTriples extracts "level|validation|focusNode" triples from a real report.
+func RealTriples(report string) ([]string, bool, error) {
+	var doc []map[string]any
+	if err := json.Unmarshal([]byte(report), &doc); err != nil || len(doc) == 0 {
+		return nil, false, fmt.Errorf("report is not a JSON dialect instance: %v", err)
+	}
+	enc, _ := doc[0]["doc:encodes"].([]any)
+	if len(enc) != 1 {
+		return nil, false, fmt.Errorf("report does not encode exactly one node")
+	}
+	rn := enc[0].(map[string]any)
+	conforms, _ := rn["conforms"].(bool)
+	var out []string
+	results, _ := rn["result"].([]any)
+	for _, r := range results {
+		m := r.(map[string]any)
+		sev, _ := m["resultSeverity"].(string)
+		out = append(out, fmt.Sprintf("%s|%v|%v", strings.ToLower(strings.TrimPrefix(sev, "http://www.w3.org/ns/shacl#")), m["sourceShapeName"], m["focusNode"]))
+	}
+	sort.Strings(out)
+	return dedupe(out), conforms, nil
 }
